@@ -25,9 +25,12 @@ TRUSTED = [
 ANSI = re.compile(r"\x1b\[[0-9;]*m")
 
 
-def gen_streams(rng, big=False):
-    """per-sender streams satisfying streams_ok: main (reader stats), analysis, validators"""
-    nval = rng.randrange(2, 6)
+def gen_streams(rng, big=False, boundary=False):
+    """per-sender streams satisfying streams_ok: main (reader stats), analysis, validators.
+    boundary: the validators' offsets lie on the two sides of a power of 16 (0xF.... / 0x1.....), strictly increasing within a
+    validator: the arrival order `later validator first` is then ascending for a comparison of the message TEXTS and descending for
+    the offsets"""
+    nval = rng.randrange(2, 6) if not boundary else 2
     main = ["V7", "G%d" % rng.choice([27139, 18451]), "D%d" % rng.choice([0, 2]), "I32"]
     fees = []
     for i in range(nval):
@@ -50,9 +53,15 @@ def gen_streams(rng, big=False):
     for i in range(nval):
         s = []
         base = i * 0x10000
+        if boundary:
+            digits = boundary
+            base = (0xF << (4 * (digits - 1))) if i == 0 else (1 << (4 * digits))
         off = base
-        for _ in range(rng.randrange(400, 800) if big else rng.randrange(0, 25)):
-            off += rng.choice([0, 0, 10, 16, 64, 400]) if not big else rng.choice([0, 10, 16])     # repeated offsets: several messages at one word / RDH
+        for _ in range(rng.randrange(400, 800) if big else (rng.randrange(2, 12) if boundary else rng.randrange(0, 25))):
+            if boundary:
+                off += rng.choice([10, 16, 64, 400])
+            else:
+                off += rng.choice([0, 0, 10, 16, 64, 400]) if not big else rng.choice([0, 10, 16])     # repeated offsets: several messages at one word / RDH
             code = rng.choice([10, 11, 30, 40, 50, 60, 70, 72, 74, 991])
             tok = "E%X.%d.%d" % (off, code, rng.randrange(1000))
             if code == 74:
@@ -132,7 +141,11 @@ def run(tier, seed):
     lines = []
     meta = []
     for f in range(nfam):
-        ss = gen_streams(rng, big=(f % 20 == 7))     # now and then far more messages than any fixed cap a collector might have
+        # now and then far more messages than any fixed cap a collector might have; now and then offsets around a power of 16
+        # (at most 12 messages of at most 400 bytes apart per validator: the lower validator stays below the power, offsets of
+        # different senders stay different)
+        bnd = rng.choice([5, 6, 7, 8]) if (f % 8 == 3 and f % 20 != 7) else False
+        ss = gen_streams(rng, big=(f % 20 == 7), boundary=bnd)
         mute = rng.randrange(2)
         body = " | ".join(" ".join(s) for s in ss)
         for k in range(nsched):
